@@ -293,14 +293,22 @@ def rule_line_reset(ctx):
     def roles_of(m, e, depth=0):
         rl = expr_roles(e)
         if not rl and depth < 3:
-            # built from the function's parameters: take the callers' actual arguments
+            # built from the function's parameters: take the callers' actual arguments; an index applied to the parameter inside
+            # the helper (`data[0]` with `data = &self.current_data`) is carried over to the caller's field
+            idx = None
+            for x in walk(e):
+                if x[0] in ('index', 'cindex') and any(y[0] == 'arg' and y[3] == m.key for y in walk(x[1])):
+                    idx = x[2] if x[0] == 'cindex' else (x[2][1] if x[2][0] == 'const' else '?')
             for x in walk(e):
                 if x[0] == 'arg' and x[3] == m.key:
                     for cm in scope:
                         for cpt, ct in cm.calls():
                             cc = ct.get('callee')
                             if cc and (cc.get('resolved') or cc['path']) == m.key and x[1] - 1 < len(ct['args']):
-                                rl |= roles_of(cm, cm.expr_of_operand(ct['args'][x[1] - 1]), depth + 1)
+                                sub = roles_of(cm, cm.expr_of_operand(ct['args'][x[1] - 1]), depth + 1)
+                                if idx is not None:
+                                    sub = {(fld, idx if k is None else k) for fld, k in sub}
+                                rl |= sub
         return rl
     for m in scope:
         for pt, s in m.points():
@@ -588,11 +596,27 @@ def rule_enc_omit(ctx):
                 enc_sites.setdefault(S, (F, set()))[1].add(pt[0])
         # 2. equality tests between the same pair
         eq_edges = {}
+
+        def bool_defs(o, depth=0):
+            """defining statements of a boolean operand, through copies and through fields of a tuple literal (`match (a, b)`)"""
+            if o['k'] not in ('copy', 'move') or depth > 6:
+                return []
+            pl = o['p']
+            if pl['pr']:
+                if len(pl['pr']) == 1 and isinstance(pl['pr'][0], dict) and 'f' in pl['pr'][0]:
+                    dd = m.whole_defs(pl['l'])
+                    if len(dd) == 1 and dd[0][1] == 'assign' and dd[0][2]['r']['k'] == 'agg' and dd[0][2]['r'].get('ak') == 'tuple':
+                        return bool_defs(dd[0][2]['r']['ops'][pl['pr'][0]['f']], depth + 1)
+                return []
+            dd = m.whole_defs(pl['l'])
+            if len(dd) == 1 and dd[0][1] == 'assign' and dd[0][2]['r']['k'] == 'use':
+                return bool_defs(dd[0][2]['r']['o'], depth + 1)
+            return dd
         for bi in range(len(m.blocks)):
             t = m.term(bi)
-            if t['k'] != 'switch' or t['d']['k'] not in ('copy', 'move') or t['d']['p']['pr']:
+            if t['k'] != 'switch' or t['d']['k'] not in ('copy', 'move'):
                 continue
-            ds = m.whole_defs(t['d']['p']['l'])
+            ds = bool_defs(t['d'])
             if len(ds) != 1 or ds[0][1] != 'assign' or ds[0][2]['r']['k'] != 'bin' or ds[0][2]['r']['op'] != 'Eq':
                 # `checked_add(1) == Some(x)` and friends compare through PartialEq::eq
                 if len(ds) == 1 and ds[0][1] == 'call' and (ds[0][2].get('callee') or {}).get('name') == 'eq':
